@@ -3,7 +3,9 @@ package kvstore
 import (
 	"context"
 
+	"berty.tech/go-orbit-db/iface"
 	"berty.tech/go-orbit-db/internal/vstub"
+	"berty.tech/go-orbit-db/stores/basestore"
 	"berty.tech/go-orbit-db/internal/vstubodb"
 	"berty.tech/go-orbit-db/stores/operation"
 )
@@ -84,11 +86,16 @@ func VerifC01KV() {
 	// everybody ends up with the same set of entries, by different routes
 	a.SyncFrom(b)
 	b.SyncFrom(a)
-	r := vstubodb.Open(NewOrbitDBKeyValue, "r", blocks, ac, false, nil)
+	// a fresh replica receives the same entries by another route: manual sync,
+	// load from a's disk, or a snapshot saved by a
+	route := vstub.NdChoice("route", 3)
+	r := vstubodb.FreshFrom(NewOrbitDBKeyValue, a, route, func(ctx context.Context, st iface.Store) error {
+		_, err := basestore.SaveSnapshot(ctx, st)
+		return err
+	})
 	if r == nil {
 		return
 	}
-	r.SyncFrom(a)
 	vstub.Cover("converged")
 	vstub.Assert(vstubodb.SameStrings(a.Hashes(), b.Hashes()), "C01 writers a and b list the same entries in the same order")
 	vstub.Assert(vstubodb.SameStrings(a.Hashes(), r.Hashes()), "C01 fresh replica lists the same entries in the same order")
